@@ -28,7 +28,7 @@ The model (Model/C09.lean) simulates the eight LRU caches (capacities re-read fr
 assignments and the method re-binding, and predicts the same string.
 """
 from harness.common import *
-import json, math, pickle, struct as _struct, atexit, array as _array
+import json, math, pickle, functools, struct as _struct, atexit, array as _array
 
 FUNCTIONAL = False
 LEVEL_TEXT = ("Lean theorems over functools.lru_cache as a list machine (hit: move to front; miss: run the function under the "
@@ -81,26 +81,6 @@ def _get_opts():
     return (int(bool(o.lsb0)), int(bool(o.bytealigned)), int(o.mxfp_overflow == "overflow"))
 
 
-def _discover_caches():
-    """Every object with a cache_clear() reachable from the package's modules and classes (so that an added or moved
-    cache is cleared too), besides the eight that common.clear_caches() knows."""
-    found, seen = [], set()
-    import types
-    for mname, mod in list(sys.modules.items()):
-        if not (mname == "bitstring" or mname.startswith("bitstring.")) or mod is None:
-            continue
-        for an, av in list(vars(mod).items()):
-            cands = [av]
-            if isinstance(av, type) and getattr(av, "__module__", "").startswith("bitstring"):
-                for bn, bv in list(vars(av).items()):
-                    cands.append(getattr(bv, "__func__", bv))
-            for c in cands:
-                c = getattr(c, "__func__", c)
-                if callable(getattr(c, "cache_clear", None)) and id(c) not in seen:
-                    seen.add(id(c)); found.append(c)
-    return found
-
-
 _CACHES = None
 
 
@@ -108,7 +88,7 @@ def clear_all():
     """Cold state: every memo of the package emptied, lazily built tables dropped."""
     global _CACHES
     if _CACHES is None:
-        _CACHES = _discover_caches()
+        _CACHES = _ext.discover_caches()
     for c in _CACHES:
         try:
             c.cache_clear()
@@ -118,7 +98,29 @@ def clear_all():
         clear_caches()
     except Exception:
         pass
+    for d in _dict_caches():
+        d.clear()
     Array._largest_values = None
+
+
+_DICTS = None
+
+
+def _dict_caches():
+    """Module- or class-level dicts of the package whose name says they are a cache / memo (hand-made memoisation)."""
+    global _DICTS
+    if _DICTS is None:
+        _DICTS = []
+        for mname, mod in list(sys.modules.items()):
+            if not (mname == "bitstring" or mname.startswith("bitstring.")) or mod is None:
+                continue
+            holders = [mod] + [v for v in vars(mod).values() if isinstance(v, type) and getattr(v, "__module__", "").startswith("bitstring")]
+            for h in holders:
+                for an, av in list(vars(h).items()):
+                    if isinstance(av, dict) and any(t in an.lower() for t in ("cache", "memo")) and not an.startswith("__"):
+                        if not any(av is d for d in _DICTS):
+                            _DICTS.append(av)
+    return _DICTS
 
 
 # ---------------------------------------------------------------------------------------------------------------
@@ -164,12 +166,35 @@ def canon_scale(s):
     return canon(s)
 
 
-_SAMPLES = (5, -3, 1.5, "1", b"a", True)
+_SAMPLES = (5, -3, 1.5, 1e6, "1", b"a", True)
+
+
+def fnsig(f, depth=0):
+    """Which functions a Dtype dispatches to (names, bound keyword arguments, wrapped functions) — compared between
+    the warm and the cold Dtype only, so internal renames do not matter."""
+    if f is None or depth > 4:
+        return "None"
+    if isinstance(f, functools.partial):
+        return "partial(%s;%s)" % (fnsig(f.func, depth + 1), ",".join("%s=%s" % (k, canon(v)) for k, v in sorted(f.keywords.items())))
+    name = getattr(f, "__qualname__", type(f).__name__)
+    inner = []
+    for cell in (getattr(f, "__closure__", None) or ()):
+        try:
+            c = cell.cell_contents
+        except ValueError:
+            continue
+        if callable(c) and not isinstance(c, type):
+            inner.append(fnsig(c, depth + 1))
+    kd = getattr(f, "__kwdefaults__", None) or {}
+    kds = ",".join("%s=%s" % (k, canon_scale(v)) for k, v in sorted(kd.items()))
+    return name + ("<" + ";".join(inner) + ">" if inner else "") + ("{" + kds + "}" if kds else "")
 
 
 def canon_dtype(d, behaviour=False):
     head = "D(%s,%s,%s,%s,%d,%d,%d)" % (d.name, canon(d.length), canon(d.bitlength), canon_scale(d.scale),
                                         int(bool(d.variable_length)), int(bool(d.is_signed)), d.bits_per_item)
+    if behaviour:
+        head += "[%s|%s|%s]" % (fnsig(d.set_fn), fnsig(d.get_fn), fnsig(d.read_fn))
     if not behaviour:
         return head
     if d.scale is not None and d.return_type not in (int, float, bool):
@@ -225,7 +250,29 @@ def _s_call(cls_field, text):
     if route == "a":
         r = Bits(bin="1") + text
         return C(bin=r.bin[1:])
-    raise ValueError(cls_field)
+    # derived from an EMPTY object of the class (fast paths that could hand out the cached store)
+    if route == "eadd":
+        return C() + text
+    if route == "eradd":
+        return text + C()
+    if route == "ejoin":
+        return C().join([text])
+    y = C()
+    if route == "eprepend":
+        y.prepend(text)
+    elif route == "eappend":
+        y.append(text)
+    elif route == "eiadd":
+        y += text
+    elif route == "einsert":
+        y.insert(text, 0)
+    elif route == "esetslice":
+        y[:] = text
+    elif route == "eoverwrite":
+        y.overwrite(text, 0)
+    else:
+        raise ValueError(cls_field)
+    return y
 
 
 def _k_call(fn, arg):
@@ -337,7 +384,7 @@ def run_op(f, operand=None):
     raise ValueError("bad op %r" % (f,))
 
 
-MUT_KINDS = ("invert", "append1", "clear", "set0", "reverse", "overwrite")
+MUT_KINDS = ("invert", "append1", "clear", "set0", "reverse", "overwrite", "ror", "setitem", "ilshift", "delitem", "byteswap")
 
 
 def _mutate(x, kind):
@@ -354,6 +401,16 @@ def _mutate(x, kind):
             x.reverse()
         elif kind == "overwrite":
             x.overwrite(Bits(bin="1"), 0)
+        elif kind == "ror":
+            x.ror(1)
+        elif kind == "setitem":
+            x[0] = not x[0]
+        elif kind == "ilshift":
+            x <<= 1
+        elif kind == "delitem":
+            del x[0]
+        elif kind == "byteswap":
+            x.byteswap()
     except Exception:
         pass
 
@@ -472,7 +529,7 @@ def execute(line):
         _set_opts(DEFAULT_OPTS)
         clear_all()
         # ---- warm pass: the history as written
-        objs, warm, optat, operands = {}, [], [], []
+        objs, warm, optat, operands, mutated = {}, [], [], [], set()
         for i, f in enumerate(ops):
             k = f[0]
             optat.append(_get_opts())
@@ -498,6 +555,7 @@ def execute(line):
                 x = objs.get(int(f[1]))
                 if isinstance(x, (BitArray, BitStream)):
                     _mutate(x, f[2])
+                    mutated.add(int(f[1]))
                 warm.append(None)
             else:
                 if k == "B":
@@ -508,6 +566,8 @@ def execute(line):
                 if obj is not None:
                     objs[i] = obj
             operands.append(operand)
+        # objects handed out earlier and never mutated by the history still hold the value they were created with
+        changed_objects = [i for i, x in objs.items() if i not in mutated and isinstance(x, Bits) and "ok " + wire(x) != warm[i]]
         info = {}
         for name, modname, path in _ext.CACHES:
             try:
@@ -524,7 +584,11 @@ def execute(line):
                 cold.append(None); chars.append("?"); continue
             c = _cold(optat[i], f, operands[i])
             cold.append(c)
-            if c == warm[i]:
+            if c == warm[i] and f[0] == "K":
+                # the memoised helpers read no option (the model's `sem`): their cold result is the same under all settings
+                dep = any(_cold(_flip(optat[i], which), f, operands[i]) != c for which in ("m", "l", "b"))
+                chars.append("o" if dep else "=")
+            elif c == warm[i]:
                 chars.append("=")
             elif f[0] == "S":
                 ch = "x"
@@ -555,7 +619,22 @@ def execute(line):
                 continue
             for i in idxs:
                 fresh[i] = res[uniq[("|".join(ops[i]), operands[i])]]
+        # ---- pristine sample: two call steps evaluated alone in a never-used process (catches state that survives
+        #      every cache_clear: hand-made memo tables, values captured at first use)
+        pristine = {}
+        call_idx = [i for i in range(len(ops)) if warm[i] is not None]
+        if have_fresh and call_idx:
+            pick = {call_idx[-1], call_idx[(len(line) * 7919 + len(call_idx)) % len(call_idx)]}
+            for i in sorted(pick):
+                r = fresh_eval(optat[i], [(ops[i], operands[i])])
+                if r:
+                    pristine[i] = r[0]
         fresh_mismatch = []
+        for i, r in pristine.items():
+            if r != (fresh[i] if ops[i][0] == "B" else cold[i]) and i not in fresh_mismatch:
+                fresh[i] = r
+                if ops[i][0] != "B":
+                    fresh_mismatch.append(i)
         for i, f in enumerate(ops):
             if warm[i] is None:
                 continue
@@ -567,7 +646,7 @@ def execute(line):
             elif fresh[i] is not None and fresh[i] != cold[i]:
                 fresh_mismatch.append(i)
         extra = {"warm": warm, "cold": cold, "fresh": fresh, "opts": optat, "cache_info": info,
-                 "fresh_mismatch": fresh_mismatch, "have_fresh": have_fresh}
+                 "fresh_mismatch": fresh_mismatch, "have_fresh": have_fresh, "changed_objects": changed_objects}
         return "ok " + "".join(chars), extra
     finally:
         _set_opts(DEFAULT_OPTS)
@@ -587,7 +666,7 @@ def oracle(line, out, extra):
     if not out.startswith("ok ") or len(out) - 3 != len(ops):
         return "malformed observation %r for %d steps" % (out[:40], len(ops))
     chars = out[3:]
-    bad = [i for i, c in enumerate(chars) if c not in ".="]
+    bad = [i for i, c in enumerate(chars) if c not in ".=o"]     # 'o' contradicts the model only (see execute)
     if bad:
         i = bad[0]
         f = ops[i].split("|")
@@ -605,6 +684,10 @@ def oracle(line, out, extra):
         if len(bad) > 1:
             msg += "; %d steps differ in all" % len(bad)
         return msg
+    if extra.get("changed_objects"):
+        i = extra["changed_objects"][0]
+        return ("the object made at step %d (%s, value %s) was never mutated by the history but holds a different value at "
+                "its end" % (i + 1, ops[i], extra["warm"][i]))
     if extra.get("fresh_mismatch"):
         i = extra["fresh_mismatch"][0]
         return ("step %d of %d: %s under %s returns %s on cleared caches in this process but %s in a fresh process "
@@ -763,6 +846,11 @@ MALFORMED = ["uint:8=256", "0xg", "foo=1", "uint:8", "2*(0b1", "ue=-1", "uie=-5"
 def gen_string(rng, kinds):
     """(dep, text, nested) for an S op. kinds: allowed dependency classes among '-', 'l', 'm', 'lm', 'e', 'n'."""
     k = rng.choice(kinds)
+    if k == "e" and rng.random() < 0.3:
+        # a token NAME in the wrong case: raises, but collides with a valid string under a case-folding cache key
+        t = gen_plain_token(rng) if rng.random() < 0.6 else gen_golomb_token(rng)
+        name, _, rest = t.partition("=")
+        return "e", rng.choice([name.upper() + "=" + rest, name.capitalize() + "=" + rest]), []
     if k == "e":
         t = rng.choice(MALFORMED)
         if rng.random() < 0.4:
@@ -958,11 +1046,17 @@ def gen_battery(rng, obj_steps, attrs=None):
 
 
 S_ROUTES = ["", "", "", "!f", "!p", "!a"]
+E_ROUTES_ANY = ["!eadd", "!eradd", "!ejoin"]
+E_ROUTES_MUT = ["!eprepend", "!eappend", "!eiadd", "!einsert", "!esetslice", "!eoverwrite"]
 
 
 def s_op(rng, dep, text, nested):
-    cls = rng.choice(CLASS_NAMES) + rng.choice(S_ROUTES)
-    return "|".join(["S", cls, dep, text] + list(nested))
+    cls = rng.choice(CLASS_NAMES)
+    if rng.random() < 0.3:
+        route = rng.choice(E_ROUTES_ANY + (E_ROUTES_MUT if cls in MUTABLE else []))
+    else:
+        route = rng.choice(S_ROUTES)
+    return "|".join(["S", cls + route, dep, text] + list(nested))
 
 
 def history(rng, length, focus, flips, safe):
@@ -1000,6 +1094,8 @@ def history(rng, length, focus, flips, safe):
         if k == "S":
             if pool_s and rng.random() < 0.4:
                 dep, text, nested = rng.choice(pool_s[-400:] if rng.random() < 0.7 else pool_s)
+                if rng.random() < 0.08 and "e" not in dep and not nested and "," not in text and text[:1].isalpha() and text == text.strip():
+                    dep, text = "e", text.upper()       # same string, token name in the wrong case: must raise
             else:
                 dep, text, nested = gen_string(rng, kinds_s)
             if safe and ("l" in dep or "m" in dep) and "e" not in dep:
@@ -1208,13 +1304,29 @@ def targeted(rng, tier):
                     "O|lsb0|%d" % v, "P|-|%s|[5,-5]|{}" % J("ue, se"), "U|-|%s|0010100110|unpack|{}" % J("ue, se"),
                     "U|-|%s|0010100110|read|{}" % J("ue"), "D|-|" + J(["ue", None, None, "dtype"]), "D|-|" + J(["sie", None, None, "dtype"])]
         H(ops)
-    # 8. mutation of earlier results
+    # 8. mutation of earlier results, every construction / derivation route that converts the string once
     for cls in ("BitArray", "BitStream"):
-        for route in ("", "!f", "!p", "!a"):
+        for route in ["", "!f", "!p", "!a"] + E_ROUTES_ANY + E_ROUTES_MUT:
             for kind in MUT_KINDS:
-                s = "S|%s%s|-|0xf0, uint:4=5" % (cls, route)
-                H([s, "M|0|%s" % kind, s, "S|Bits|-|0xf0, uint:4=5", "M|2|%s" % kind, "B|Bits|_find|0|" + J([0, 4, "0101"]),
-                   "S|ConstBitStream|-|0xf0, uint:4=5"])
+                for text in ("0xf0, uint:4=5", "0b0000111101"):
+                    s = "S|%s%s|-|%s" % (cls, route, text)
+                    H([s, "M|0|%s" % kind, s, "S|Bits|-|" + text, "M|2|%s" % kind, "B|Bits|_find|0|" + J([0, 4, "0101"]),
+                       "S|ConstBitStream|-|" + text, "S|%s!eadd|-|%s" % (cls, text), "M|7|%s" % kind, "S|Bits!f|-|" + text])
+    # 9. lists of format items: every item is its own tokenparser / preprocess_tokens key, and is used alone afterwards
+    pairs = [("uint:8", [5], "hex:8", ["ab"]), ("uint:4, int:4", [3, -2], "bin:3", ["101"]), ("2*uint:3", [1, 2], "bool, pad:2", [True]),
+             ("ue", [3], "se, uint:5", [-2, 7]), (">hB", [1, 2], "float:32", [1.5]), ("uint:12=7", [], "bits:4", ["0b1010"]),
+             ("hex", ["abc"], "oct:6", ["17"])]
+    for f1, v1, f2, v2 in pairs:
+        if f2 == "bits:4":
+            continue
+        bits1 = "1011001110001111010100110000111101011100"
+        H(["P|-|%s|%s|{}" % (J([f1, f2]), J(v1 + v2)), "P|-|%s|%s|{}" % (J(f1), J(v1)), "K|tokenparser|-|" + J([[f1], {}]),
+           "P|-|%s|%s|{}" % (J([f1, f2]), J(v1 + v2)), "P|-|%s|%s|{}" % (J([f2, f1, f2]), J(v2 + v1 + v2)), "P|-|%s|%s|{}" % (J(f2), J(v2)),
+           "K|tokenparser|-|" + J([[f2], {}]), "K|preprocess_tokens|-|" + J([[f1], {}]),
+           "U|-|%s|%s|unpack|{}" % (J([f1, f2]), bits1), "U|-|%s|%s|unpack|{}" % (J(f1), bits1), "U|-|%s|%s|readlist|{}" % (J([f2, f1]), bits1),
+           "U|-|%s|%s|unpack|{}" % (J(f2), bits1), "K|preprocess_tokens|-|" + J([[f2], {}]), "P|-|%s|%s|{}" % (J(f1), J(v1))])
+        H(["P|-|%s|%s|{}" % (J(f1), J(v1)), "P|-|%s|%s|{}" % (J([f1, f1]), J(v1 + v1)), "P|-|%s|%s|{}" % (J(f1), J(v1)),
+           "P|-|%s|%s|{}" % (J([f1, f1, f1]), J(v1 + v1 + v1)), "P|-|%s|%s|{}" % (J(f1), J(v1)), "K|tokenparser|-|" + J([[f1], {}])])
     return out
 
 
